@@ -428,6 +428,87 @@ func (c *Ctx) c02Sweep(snap *load.FuncInfo) {
 		r.Check(ok, "C02.N6", snap.Name(), "an unset session expiration is replaced by a built-in one", c.P.Pos(snap.Node().Pos()), "a positive constant duration under <expiration> == 0, in Snapshot or in sessionExpiration()",
 			"the compaction horizon is computed from the FSM's cached session expiration without a fall-back for zero: that cache is only filled when a Config entry is applied in this process, so after every restart the horizon is a few seconds — output and entries that live sessions still need are compacted away")
 	}
+	// ---------- N6e: the expiration the horizon is computed from is the one in force after a restore too. The cache
+	// (FSM.sessionExpirationDur) is filled when a Config entry is applied; a node that loaded its state from a snapshot has the
+	// configuration but usually not the entry (it was compacted). Wherever package main loads the live server's state
+	// (ircServer.Unmarshal in the decoders), the cache is written before the function goes on (directly, or by a function of
+	// the package that writes it), on the success path of the load.
+	if dur := c.P.Field("main", "FSM", "sessionExpirationDur"); dur != nil {
+		writesDur := map[*load.FuncInfo]bool{}
+		for _, w := range c.writersOf(dur) {
+			writesDur[w] = true
+		}
+		nLoad := 0
+		for _, fi := range c.P.FuncsIn("main") {
+			if fi.Body() == nil {
+				continue
+			}
+			info := fi.Info()
+			g := c.Graph(fi)
+			for _, call := range callsIn(fi, func(fn *types.Func, _ *ast.CallExpr) bool { return isFunc(fn, "ircserver", "(*IRCServer).Unmarshal") }) {
+				// of the live server only (Snapshot unmarshals into its temporary server)
+				se, ok := ast.Unparen(call.Fun).(*ast.SelectorExpr)
+				if !ok {
+					continue
+				}
+				rid, ok := ast.Unparen(se.X).(*ast.Ident)
+				if !ok {
+					continue
+				}
+				if v, isVar := astx.Obj(info, rid).(*types.Var); !isVar || v.Parent() != v.Pkg().Scope() {
+					continue
+				}
+				nLoad++
+				v := g.VertexOf(call)
+				updates := func(x *cfgx.Vertex) bool {
+					if x.Node == nil || x.ID == v {
+						return false
+					}
+					if as, isAs := x.Node.(*ast.AssignStmt); isAs {
+						for _, l := range as.Lhs {
+							if fv, _ := lhsField(info, l); fv == dur {
+								return true
+							}
+						}
+					}
+					for _, c2 := range astx.Calls(x.Node, false) {
+						if fn := astx.Callee(info, c2); fn != nil {
+							if h := c.P.FuncOf(fn); h != nil && writesDur[h] {
+								return true
+							}
+						}
+					}
+					return false
+				}
+				// on the nil-error path from the load: the update comes before the next iteration / the end of the function
+				okUpd := false
+				reach := g.Reach(v, func(x int) bool { return updates(g.V[x]) }, func(e *cfgx.Edge) bool {
+					// leave the error exits aside
+					for _, f := range e.Facts() {
+						if _, isNil, isCmp := nilCompare(info, f); isCmp && !isNil {
+							return true
+						}
+					}
+					return false
+				})
+				okUpd = !reach[g.Exit]
+				if okUpd {
+					// … and there is an update at all
+					okUpd = false
+					for _, x := range g.Nodes() {
+						if updates(x) {
+							okUpd = true
+						}
+					}
+				}
+				r.Check(okUpd, "C02.N6", fi.Name(), "the horizon's session expiration is restored with the state", c.P.Pos(call.Pos()), "FSM.sessionExpirationDur is written after ircServer.Unmarshal on the success path",
+					"the live server's state is replaced from a snapshot and the FSM's cached session expiration is left as it was (zero in a fresh process): the next Snapshot computes the horizon from the built-in 10 minutes instead of the configured expiration — this node compacts entries and output that sessions can still resume from, and the nodes that did not restore keep them")
+			}
+		}
+		if nLoad == 0 {
+			r.Break("C02.N6: no load of the live server's state found in package main")
+		}
+	}
 	// ---------- N6c: the time an entry is judged by: its own UnixNano, the id only for entries from before UnixNano existed
 	if ts := c.MustFunc("robust.(*Message).Timestamp"); ts != nil && ts.Body() != nil {
 		ti := ts.Info()
